@@ -517,7 +517,15 @@ def run(ck):
         ck.evaluations += n
         ck.count(f'{f.kind}:{what}', n)
 
+    reported = {}
+
     def report(what, f, detail, key):
+        # at most 25 replay files per kind of failure (a broken decoder fails on thousands of inputs)
+        k = (what, key)
+        reported[k] = reported.get(k, 0) + 1
+        if reported[k] > 25 and not (key is not None and key in ck.known):
+            ck.count('further failing inputs (not written): ' + what)
+            return
         d = {'format': repr(f), 'coq_format': f.term}
         d.update(detail)
         ck.violation(what, d, key=key)
